@@ -11,6 +11,7 @@ From CG Require Import Proofs.TreeFacts Proofs.BashScript Proofs.BashCodec Proof
   Proofs.BashMeaningSub Proofs.BashMeaningMix Proofs.StripFacts Proofs.GlobFacts Proofs.SubBridge Proofs.CapstoneLits Proofs.CapstoneMeaning.
 From CG Require Import Spec.Choice Spec.Warnings Proofs.CheckProvenance Proofs.CapstoneCommands Proofs.CapstoneChoice.
 From CG Require Import Proofs.CapstoneTotalRun.
+From CG Require Model.ChainTables Proofs.C12Chain Proofs.CapstoneChain.
 From CGgen Require Import Consts.
 
 (** ** C14 -- layout and statement order do not change the script
@@ -290,9 +291,7 @@ Print Assumptions ex_C11_converse_inhabited.
     on the tables of that script ([BashSem.run_from Repaired], the model of /repo HEAD's bash
     templates) neither runs out of fuel nor reaches a panic site, for EVERY environment, every
     list of typed words and every prefix, and its return code is 0 or 1.
-    (C12: [C12_chain_any_repaired_variant] is about the table family [chain_alltables], tied to
-    [all_tables] of the grammars [cmd --opt=(..|..) next;] by differential execution in c12.py, not
-    by a theorem; no source-level corollary is claimed for it.) *)
+    (C12: see the next section.) *)
 Theorem C17_compile_bash_run_total :
   forall o builtins text s,
     compile_bash o builtins text = Ok s -> sub_lits_nonempty o = true ->
@@ -315,3 +314,111 @@ Check C17_compile_bash_run_total :
            /\ (forall site, run_from Repaired (d_start (c_main c)) a e ws p <> Panic site)
            /\ (forall r, run_from Repaired (d_start (c_main c)) a e ws p = Ok r -> r_rc r = 0 \/ r_rc r = 1).
 Print Assumptions C17_compile_bash_run_total.
+
+(** ** C12 -- a value that is a prefix of another value, through the capstone
+
+    [C12_chain_any_repaired_variant] is about the table family [chain_alltables lits ipre next].
+    Whether the pipeline produces an instance of that family for a text is a decidable fact about
+    that text -- an equality of finite tables -- and NOT a lemma here: a parametric proof would have
+    to evaluate parser, checker, subset construction and Hopcroft's loop symbolically on
+    [cmd <pre>(<v1>|...|<vn>) <next>;] for every n and all strings.  So the corollary is
+    conditional on that equality: if [compile_bash] returns a script and the tables of that script
+    are [chain_alltables lits ipre next] (start state 0), then for every matcher variant with the
+    repaired stop test the functions of the script, on those tables, recognise a complete value
+    even when another value extends it, and offer exactly the values that extend a partial one.
+    The equality is discharged by kernel computation for a concrete text (the Example below: the
+    text of the finding, [abc] a prefix of [abcd]) and, for Rust's tables, by differential execution
+    on the exhaustive family (c12.py). *)
+Theorem C12_compile_bash_chain :
+  forall o builtins text s v c nd a lits ipre pre next,
+    compile_bash o builtins text = Ok s ->
+    compile (pick_table (o_pops o)) (o_fuel o) builtins text Bash = Ok (v, c) ->
+    all_tables Bash c (o_main_lits o) (o_sub_lits o) = Ok (nd, a) ->
+    d_start (c_main c) = 0%N -> a = ChainTables.chain_alltables lits ipre next ->
+    nthN lits ipre = Some pre ->
+    forall var, var <> Pinned ->
+    (var = Repaired \/ (forall l, In l lits -> plain l = true)) ->
+    (forall l, In l lits -> printable_str l = true) ->
+    (forall l, In l lits -> l <> EmptyString) ->
+    C12Chain.sorted_len lits ->
+    (forall (e : BashSem.env) w,
+        BashSem.e_wordbreaks e = EmptyString \/ BashSem.e_wordbreaks e = C12Chain.default_wordbreaks ->
+        C12Chain.is_value lits pre w ->
+        run_from var (d_start (c_main c)) a e [(pre ++ w)%string] EmptyString
+        = Ok (mkresult 0 [(next ++ " ")%string] []))
+    /\ (forall (e : BashSem.env) p,
+           BashSem.e_ignore_case e = false -> BashSem.e_wordbreaks e = EmptyString ->
+           (var = Repaired \/ plain p = true) -> printable_str p = true ->
+           (exists w, C12Chain.is_value lits pre w /\ String.prefix p w = true /\ p <> w) ->
+           run_from var (d_start (c_main c)) a e [] (pre ++ p)
+           = Ok (mkresult 0 (map (append pre) (filter (String.prefix p) (C12Chain.values lits ipre))) [])).
+Proof. exact CapstoneChain.compile_bash_chain. Qed.
+Check C12_compile_bash_chain :
+  forall o builtins text s v c nd a lits ipre pre next,
+    compile_bash o builtins text = Ok s ->
+    compile (pick_table (o_pops o)) (o_fuel o) builtins text Bash = Ok (v, c) ->
+    all_tables Bash c (o_main_lits o) (o_sub_lits o) = Ok (nd, a) ->
+    d_start (c_main c) = 0%N -> a = ChainTables.chain_alltables lits ipre next ->
+    nthN lits ipre = Some pre ->
+    forall var, var <> Pinned ->
+    (var = Repaired \/ (forall l, In l lits -> plain l = true)) ->
+    (forall l, In l lits -> printable_str l = true) ->
+    (forall l, In l lits -> l <> EmptyString) ->
+    C12Chain.sorted_len lits ->
+    (forall (e : BashSem.env) w,
+        BashSem.e_wordbreaks e = EmptyString \/ BashSem.e_wordbreaks e = C12Chain.default_wordbreaks ->
+        C12Chain.is_value lits pre w ->
+        run_from var (d_start (c_main c)) a e [(pre ++ w)%string] EmptyString
+        = Ok (mkresult 0 [(next ++ " ")%string] []))
+    /\ (forall (e : BashSem.env) p,
+           BashSem.e_ignore_case e = false -> BashSem.e_wordbreaks e = EmptyString ->
+           (var = Repaired \/ plain p = true) -> printable_str p = true ->
+           (exists w, C12Chain.is_value lits pre w /\ String.prefix p w = true /\ p <> w) ->
+           run_from var (d_start (c_main c)) a e [] (pre ++ p)
+           = Ok (mkresult 0 (map (append pre) (filter (String.prefix p) (C12Chain.values lits ipre))) [])).
+Print Assumptions C12_compile_bash_chain.
+
+(** The text of the finding, from the text to the behaviour, inside the kernel: [compile_bash]
+    returns a script for it, the tables of that script are the instance
+    [chain_alltables ["--opt="; "abcd"; "abc"; "a"] 0 "next"], and the functions on those tables
+    accept the word [--opt=abc] (and [--opt=a]) although [abcd] extends it. *)
+Definition ex12_text : string := "cmd --opt=(abcd|abc|a) next;".
+Definition ex12_o : oracles :=
+  mkoracles [] 100 [("next", "")] [(0, [("--opt=", ""); ("abcd", ""); ("abc", ""); ("a", "")])] [[0]] "sig".
+Example ex_C12_capstone_instance :
+  is_ok (compile_bash ex12_o builtins ex12_text) = true
+  /\ match compile (pick_table (o_pops ex12_o)) (o_fuel ex12_o) builtins ex12_text Bash with
+     | Ok (v, c) =>
+         d_start (c_main c) = 0
+         /\ all_tables Bash c (o_main_lits ex12_o) (o_sub_lits ex12_o)
+            = Ok (mkneeds true false false false false false false,
+                  ChainTables.chain_alltables ["--opt="; "abcd"; "abc"; "a"] 0 "next")
+         /\ forall (e : BashSem.env),
+              BashSem.e_wordbreaks e = EmptyString \/ BashSem.e_wordbreaks e = C12Chain.default_wordbreaks ->
+              run_from Repaired (d_start (c_main c)) (ChainTables.chain_alltables ["--opt="; "abcd"; "abc"; "a"] 0 "next")
+                       e ["--opt=abc"] EmptyString
+              = Ok (mkresult 0 ["next "] [])
+     | _ => False
+     end.
+Proof.
+  split; [vm_compute; reflexivity|].
+  destruct (compile (pick_table (o_pops ex12_o)) (o_fuel ex12_o) builtins ex12_text Bash) as [[v c]| | |] eqn:Hc;
+    try (vm_compute in Hc; discriminate).
+  assert (Hs : d_start (c_main c) = 0) by (vm_compute in Hc; inversion Hc; reflexivity).
+  assert (Ha : all_tables Bash c (o_main_lits ex12_o) (o_sub_lits ex12_o)
+               = Ok (mkneeds true false false false false false false,
+                     ChainTables.chain_alltables ["--opt="; "abcd"; "abc"; "a"] 0 "next"))
+    by (vm_compute in Hc; inversion Hc; vm_compute; reflexivity).
+  split; [exact Hs|]. split; [exact Ha|]. intros e He.
+  assert (Hok : exists s, compile_bash ex12_o builtins ex12_text = Ok s).
+  { destruct (compile_bash ex12_o builtins ex12_text) as [s| | |] eqn:E; [eauto| | |]; vm_compute in E; discriminate. }
+  destruct Hok as [s Hcb].
+  destruct (C12_compile_bash_chain ex12_o builtins ex12_text s v c _ _ ["--opt="; "abcd"; "abc"; "a"] 0 "--opt=" "next"
+              Hcb Hc Ha Hs eq_refl eq_refl Repaired ltac:(discriminate) (or_introl eq_refl)) as [H1 _].
+  - intros l Hl. repeat (destruct Hl as [<-|Hl]; [vm_compute; reflexivity|]). destruct Hl.
+  - intros l Hl. repeat (destruct Hl as [<-|Hl]; [discriminate|]). destruct Hl.
+  - cbn. repeat split; intros b Hb; repeat (destruct Hb as [<-|Hb]; [cbn; lia|]); destruct Hb.
+  - assert (Hv : C12Chain.is_value ["--opt="; "abcd"; "abc"; "a"] "--opt=" "abc") by (split; [cbn; auto|discriminate]).
+    pose proof (H1 e "abc" He Hv) as H. cbn [append] in H. exact H.
+Qed.
+Print Assumptions ex_C12_capstone_instance.
